@@ -22,8 +22,11 @@ func deleteUnknowns(s *Scenario) *Scenario {
 			for _, f := range it.Flags {
 				tok += f.Typed
 			}
-			c.K = IRaw // rendered token of known flags only; interpreted by the real parser, fold not used on this side
-			c.Tokens = []string{tok}
+			c.K = IRaw // rendered token of known members only; interpreted by the real parser, fold not used on this side
+			c.Tokens = append([]string{tok}, it.Tokens[1:]...)
+			if tok == "-" {
+				continue
+			}
 			v.Items = append(v.Items, &c)
 			continue
 		}
